@@ -77,7 +77,14 @@ Resolve(H, i, n) ==        \* entry a hard link finally stands for; 0 = does not
     IF H[i].k # "hardlink" THEN i
     ELSE IF n = 0 \/ Named(H, Clean(H[i].l)) = {} THEN 0
     ELSE Resolve(H, Max(Named(H, Clean(H[i].l))), n - 1)
-Unresolved(H) == \E i \in DOMAIN H : H[i].k = "hardlink" /\ Resolve(H, i, ChainBound) = 0
+(* entries a hard link may stand for under ANY rule of choosing among entries of one name (estargz: the last one, *)
+(* db store: the latest so far): closure of "entry named by the linkName of a hardlink in the set"             *)
+RECURSIVE Reach(_, _, _)
+Reach(H, S, n) ==
+    IF n = 0 THEN S
+    ELSE Reach(H, S \cup UNION {Named(H, Clean(H[j].l)) : j \in {x \in S : H[x].k = "hardlink"}}, n - 1)
+Resolvable(H, i) == \E j \in Reach(H, {i}, ChainBound) : H[j].k # "hardlink"
+Unresolved(H) == \E i \in DOMAIN H : H[i].k = "hardlink" /\ ~Resolvable(H, i)
 (* a hard link below the directory it links to: the tree contains itself *)
 TreeCycle(H) == \E i \in DOMAIN H :
     /\ H[i].k = "hardlink" /\ Resolve(H, i, ChainBound) # 0
@@ -92,15 +99,16 @@ Plain(H) ==    \* conforming, well-formed: must be accepted (keeps the harness h
     /\ Cardinality({i \in DOMAIN H : H[i].k = "reg"}) <= 1
 
 (* sanity of the reference (M) *)
-ResolvedIsSource == ~Unresolved(toc) => \A i \in DOMAIN toc : toc[i].k = "hardlink" => toc[Resolve(toc, i, ChainBound)].k # "hardlink"
+ResolvedIsSource == \A i \in DOMAIN toc : (toc[i].k = "hardlink" /\ Resolve(toc, i, ChainBound) # 0) =>
+                        (toc[Resolve(toc, i, ChainBound)].k # "hardlink" /\ Resolvable(toc, i))
 SelfLinkRejected == \A i \in DOMAIN toc : (toc[i].k = "hardlink" /\ Clean(toc[i].l) = Clean(toc[i].n)
-                        /\ Max(Named(toc, Clean(toc[i].n))) = i) => MustReject(toc)
+                        /\ Named(toc, Clean(toc[i].n)) = {i}) => MustReject(toc)
 TwoCycleRejected == \A i, j \in DOMAIN toc :
     (/\ toc[i].k = "hardlink" /\ toc[j].k = "hardlink" /\ i # j
      /\ Clean(toc[i].l) = Clean(toc[j].n) /\ Clean(toc[j].l) = Clean(toc[i].n)
-     /\ Max(Named(toc, Clean(toc[i].n))) = i /\ Max(Named(toc, Clean(toc[j].n))) = j) => MustReject(toc)
+     /\ Named(toc, Clean(toc[i].n)) = {i} /\ Named(toc, Clean(toc[j].n)) = {j}) => MustReject(toc)
 DirectLinkResolves == \A i \in DOMAIN toc :
     (toc[i].k = "hardlink" /\ Named(toc, Clean(toc[i].l)) # {} /\ toc[Max(Named(toc, Clean(toc[i].l)))].k # "hardlink")
-        => Resolve(toc, i, ChainBound) # 0
+        => Resolvable(toc, i)
 PlainAccepted == Plain(toc) => ~MustReject(toc) /\ ~TreeCycle(toc)
 =============================================================================
